@@ -6,7 +6,8 @@
    tile_ok nh R N t d: every 32-byte entry of tile data d is NodeAt at its coordinate. *)
 From Verif.Base Require Import Bytes.
 From Verif.Tlog Require Import Index Tree Spec6962 Sha Tile TileReader TileReaderOld TileSpec.
-From Verif.Tlog Require Import TileProofsSound TileProofsPath6962 TileProofsTrue TileProofsOld.
+From Verif.Tlog Require Import ProofsTree Sha TileProofs TileProofsSound TileProofsExtract TileProofsComplete TileProofsHonest.
+From Verif.Tlog Require Import TileProofsHonestRun TileProofsInst TileProofsPath6962 TileProofsTrue TileProofsOld.
 
 (* Every hash returned and EVERY tile handed to SaveTiles is authenticated (for every hash function). *)
 Theorem C10_read_hashes_sound :
@@ -27,7 +28,22 @@ Theorem C10_saved_only_authenticated :
 Proof. exact read_hashes_saved_only_authenticated. Qed.
 Print Assumptions C10_saved_only_authenticated.
 
-(* non-vacuity of the two theorems above and the historical defect (section 7, F1), with the real
+(* SaveTiles is followed by a successful return: an error or a panic means nothing was saved. *)
+Theorem C10_saved_implies_ok :
+  forall (nh : hash -> hash -> hash) N R h ix rt r sv,
+    1 <= h <= 30 -> 0 <= N <= 2 ^ 62 ->
+    tile_read_hashes nh (N, R) h ix rt = (r, Some sv) -> exists hs, r = TOk hs.
+Proof. exact read_hashes_saved_implies_ok. Qed.
+Print Assumptions C10_saved_implies_ok.
+
+Theorem C10_err_nothing_saved :
+  forall (nh : hash -> hash -> hash) N R h ix rt e s,
+    1 <= h <= 30 -> 0 <= N <= 2 ^ 62 ->
+    tile_read_hashes nh (N, R) h ix rt = (TErr e, s) -> s = None.
+Proof. exact read_hashes_err_nothing_saved. Qed.
+Print Assumptions C10_err_nothing_saved.
+
+(* non-vacuity of the theorems above and the historical defect (section 7, F1), with the real
    SHA-256: for the 7-record log below and h = 2, index 0, honest tiles give (TOk _, Some _);
    with one flipped bit in tile/2/0/000 the code before the fix accepted, saved and returned the
    wrong hash, the code as it is now answers TEInconsistent and saves nothing. *)
@@ -97,3 +113,61 @@ Theorem C10_returned_hashes_are_true :
                                      (exists a b c d : hash, (a, b) <> (c, d) /\ nh a b = nh c d))) ix hs.
 Proof. exact returned_hashes_are_true. Qed.
 Print Assumptions C10_returned_hashes_are_true.
+
+(* Planning never fails on valid input: the parent search `for ; ; k++` ends (the model's fuel is
+   not exhausted), no "bad math in tileHashReader", no panic. *)
+Theorem C10_make_plan_ok :
+  forall N h ix,
+    1 <= h -> 0 <= N <= 2 ^ 62 -> Forall (fun x => 0 <= x < stored_hash_index 0 N) ix ->
+    exists p, make_plan N h ix = TOk p.
+Proof. exact make_plan_ok. Qed.
+Print Assumptions C10_make_plan_ok.
+
+(* Completeness: with honest tiles the read succeeds and returns exactly the true hashes.  T lo hi is
+   any family of 32-byte hashes of the record ranges [lo, hi) obeying the RFC 6962 recursion
+   (ProofsTree.T_splits); honest_tile T t lists T of the tW t subtrees tile t stands for. *)
+Theorem C10_read_hashes_complete :
+  forall (nh : hash -> hash -> hash) (T : Z -> Z -> hash) N,
+    T_splits nh T N -> (forall lo hi, length (T lo hi) = 32%nat) -> 0 < N <= 2 ^ 62 ->
+    forall h, 1 <= h <= 30 ->
+    forall ix, Forall (fun x => 0 <= x < stored_hash_index 0 N) ix ->
+    exists sv, tile_read_hashes nh (N, T 0 N) h ix (honest_rt T) = (TOk (map (true_hash T) ix), Some sv).
+Proof. exact read_hashes_complete. Qed.
+Print Assumptions C10_read_hashes_complete.
+
+(* the hypotheses are met by every real log: records recs, SHA-256, tree head = MTH of the record hashes *)
+Theorem C10_read_hashes_complete_sha256 :
+  forall (recs : list str) h ix,
+    1 <= h <= 30 -> 0 < zlen recs <= 2 ^ 62 ->
+    Forall (fun x => 0 <= x < stored_hash_index 0 (zlen recs)) ix ->
+    exists sv,
+      tile_read_hashes node_hash_sha (zlen recs, mth node_hash_sha (map record_hash recs)) h ix
+                       (honest_rt (sha_range recs))
+      = (TOk (map (true_hash (sha_range recs)) ix), Some sv).
+Proof. exact read_hashes_complete_sha256. Qed.
+Print Assumptions C10_read_hashes_complete_sha256.
+
+(* NOT PROVED (validated by the correspondence run and the Go oracles only):
+   new_tiles_sufficient — for every growth history 0 = n0 <= ... <= nk = N, every tile planned by
+     make_plan N h ix is in new_tiles h n_i n_(i+1) for some i, and read_tile_data of it over
+     store_of recs is honest_tile (oracle "newtiles-sufficient": a publisher publishing exactly
+     NewTiles over random growth histories, a reader at every size; oracle "read-tile-data-true").
+   tile_path_bijection — valid_tile t -> parse_tile_path (tile_path t) = TOk t, and
+     parse_tile_path s = TOk t -> tile_path t = s /\ valid_tile t.  Proved below: the second
+     half's first conjunct (a parsed path is canonical).  The rest is validated by an independent
+     regular-expression grammar and round trips on ~27000 path strings per run. *)
+
+Theorem C10_tile_path_bijection_partial :
+  forall s t, parse_tile_path s = TOk t ->
+    tile_path t = s /\
+    1 <= tH t <= 30 /\ -1 <= tL t /\ 1 <= tW t <= 2 ^ tH t /\ - 2 ^ 63 <= tN t < 2 ^ 63.
+Proof. intros s t H. split; [exact (parse_tile_path_canonical s t H)|exact (parse_tile_path_shape s t H)]. Qed.
+Print Assumptions C10_tile_path_bijection_partial.
+
+(* the partial theorem is not vacuous: the example of the tlog documentation *)
+Example C10_tile_path_example :
+  parse_tile_path (B "tile/3/4/x001/x234/067.p/1") = TOk (mkTile 3 4 1234067 1) /\
+  tile_path (mkTile 3 4 1234067 8) = B "tile/3/4/x001/x234/067" /\
+  parse_tile_path (B "tile/3/data/000") = TOk (mkTile 3 (-1) 0 8) /\
+  parse_tile_path (B "tile/3/4/001/x234/067") = TErr TEBadPath.
+Proof. vm_compute. repeat split; reflexivity. Qed.
